@@ -139,6 +139,7 @@ fn main() {
         "c07o" => props::outer::run(seed, n, &mut out, props::outer::Mode::Malformed, 0xC07),
         "c13" => props::fm::run_c13(seed, n, &mut out),
         "c14" => props::fm::run_c14(seed, n, &mut out),
+        "c15a" => props::c15a::run(seed, n, &mut out),
         "c15b" => props::fm::run_c15b(seed, n, &mut out),
         _ => {
             eprintln!("unknown property {}", prop);
